@@ -619,6 +619,20 @@ def f_divmod_table_lookup():
     return t[17], q, r, [divmod(x, 8) for x in (7, 8, 9)]
 
 
+def f_keyword_arguments():
+    import itertools as _it
+    l = [3, 1, 2]
+    l2 = sorted(l, reverse=True)
+    l.sort(key=lambda x: -x)
+    d = {'a': 1}
+    return (list(_it.accumulate([1, 2, 3], initial=0)), list(_it.accumulate([1, 2, 3], lambda a, b: a * b)), l2, l, max([], default=7), sum([1, 2], 10),
+            list(enumerate('ab', start=5)), int('ff', 16), int.from_bytes(b'\xff\xfe', 'big', signed=True), (258).to_bytes(length=2, byteorder='little'),
+            'a,b,c'.split(',', 1), b'ab'.rjust(4, b'0'), '7'.zfill(3), pow(3, 4, 5), round(2.567, 1), [1, 2, 1].index(1, 1), 'abcabc'.find('c', 3),
+            min('bb', 'a', key=len), list(_it.islice(range(10), 2, 8, 3)), list(_it.zip_longest([1], [2, 3], fillvalue=0)), d.pop('z', 9), d.setdefault('q', 4),
+            list(map(lambda a, b: a + b, [1, 2], [10, 20])), dict(zip('ab', (1, 2))), bytes(3), bytes([65, 66]), bytearray(b'x') * 2, list(reversed(range(3))),
+            sorted({'b': 1, 'a': 2}.items(), key=lambda kv: kv[1]), list(_it.chain([1], (2, 3))), list(_it.repeat(5, 2)), divmod(-7, 2), (-7) // 2, (-7) % 4, 7 >> 1, ~5 & 0xff)
+
+
 def f_str_bits():
     s = bin(0b101101)[2:]
     return s, s.zfill(8), int(s[::-1], 2), s.count('1'), s.rfind('1'), s[:3] + '0' * 2, '{:08b}'.format(5), f'{5:08b}'[-3:], ''.join('1' if c == '0' else '0' for c in s)
